@@ -266,6 +266,8 @@ type vpKV struct {
 	faultForce bool // inject faults[0] without asking the explorer
 	watchFailLeft int
 	latOps    string // "" = the request latency applies to every operation, otherwise only to this one
+	getRespSeq []time.Duration // concrete response latency of the n-th Get (then none)
+	getRespN  int
 	latSeq    []time.Duration // concrete request latency of the n-th such operation (then none)
 	latN      int
 }
@@ -344,7 +346,14 @@ func (k *vpKV) end(op string, f int) int {
 	if k.ackYield {
 		vpYield(op + ".ack") // scheduling point between application and response (stop-point harnesses)
 	}
-	if op == "get" && k.getRespLat > 0 {
+	if op == "get" && k.getRespSeq != nil {
+		d := time.Duration(0)
+		if k.getRespN < len(k.getRespSeq) {
+			d = k.getRespSeq[k.getRespN]
+		}
+		k.getRespN++
+		vpDelay("get.resp", d, d)
+	} else if op == "get" && k.getRespLat > 0 {
 		vpDelay("get.resp", k.getRespLat, k.getRespLat) // the answer to a read travels this long
 	} else {
 		vpDelay(op+".resp", 0, k.latResp)
